@@ -148,12 +148,40 @@ def edit_source(r, src, state, force=None, force_on=None, only=None):
     return log
 
 
+def damage_sqlite(p, how):
+    """structured damage of the checksum database: the file stays a valid SQLite database that ChecksumDatabase::open accepts"""
+    import sqlite3
+    try:
+        con = sqlite3.connect(p)
+        if how == "old-schema":      # the table of an earlier version: no mtime_nanos column (updated_at is there, so the index can be created)
+            rows = con.execute("SELECT path, mtime_secs, size, checksum_type, checksum, updated_at FROM checksums").fetchall()
+            con.execute("DROP TABLE checksums")
+            con.execute("CREATE TABLE checksums (path TEXT PRIMARY KEY, mtime_secs INTEGER NOT NULL, size INTEGER NOT NULL, "
+                        "checksum_type TEXT NOT NULL, checksum BLOB NOT NULL, updated_at INTEGER NOT NULL)")
+            con.executemany("INSERT INTO checksums VALUES (?,?,?,?,?,?)", rows)
+        elif how == "bad-type":      # every stored checksum is a TEXT value (row.get::<Vec<u8>> fails)
+            con.execute("UPDATE checksums SET checksum = 'not a blob'")
+        else:                        # checksum_type holds an integer
+            con.execute("UPDATE checksums SET checksum_type = 7")
+        con.commit(); con.close()
+        return True
+    except Exception:
+        return False
+
+
 def damage(r, dst):
     done = []
     for name in (".sy-dir-cache.json", ".sy-checksums.db", ".sy-state.json"):
         p = os.path.join(dst, name)
         if os.path.exists(p) and r.random() < 0.5:
             how = r.choice(["truncate", "garbage", "version"])
+            if name == ".sy-checksums.db" and r.random() < 0.6:
+                # a database that still OPENS but whose table cannot be queried (seed C18-4): an older schema, a row of the wrong type
+                how = r.choice(["old-schema", "bad-type", "bad-kind"])
+                if damage_sqlite(p, how):
+                    done.append((name, how))
+                    continue
+                how = "garbage"
             data = open(p, "rb").read()
             if how == "truncate":
                 data = data[:len(data) // 2]
@@ -169,7 +197,9 @@ def damage(r, dst):
 
 AUX_SETS = [("cache", ["--use-cache=true"], []), ("db", ["--checksum", "--checksum-db=true"], ["--checksum"]), ("resume", ["--resume=true"], ["--resume=false"]),
             ("cache+delete", ["--use-cache=true"], []), ("db+delete", ["--checksum", "--checksum-db=true"], ["--checksum"]), ("all", ["--use-cache=true", "--checksum", "--checksum-db=true"], ["--checksum"]),
-            ("state", ["--resume=true"], ["--resume=false"])]
+            ("state", ["--resume=true"], ["--resume=false"]),
+            # seed C18-4: the database of every later step still opens but its table cannot be queried (older schema, rows of the wrong type)
+            ("db-damaged", ["--checksum", "--checksum-db=true"], ["--checksum"])]
 
 
 def still_same(src, dst, rel):
@@ -243,6 +273,11 @@ def run_history(sc, seed, i, known, stats):
                         os.utime(fp, ns=(st_.st_atime_ns, st_.st_mtime_ns))
                     history.append([("corrupt-destination", victim)])
         dmg = damage(r, db) if k > 1 and r.random() < 0.4 and i % 2 == 0 else []      # odd histories keep their files intact (hits need surviving rows)
+        if name == "db-damaged" and k > 1 and os.path.exists(os.path.join(db, ".sy-checksums.db")):
+            how = ["old-schema", "bad-type", "bad-kind"][(i // len(AUX_SETS) + k) % 3]
+            if damage_sqlite(os.path.join(db, ".sy-checksums.db"), how):
+                dmg.append((".sy-checksums.db", how))
+                stats["db_structurally_damaged"] = stats.get("db_structurally_damaged", 0) + 1
         if name == "state" and k >= 2:
             # a VALID state file listing some current source paths as completed (public ResumeState API)
             # paths an interrupted earlier run would have completed: files that are in the destination now
@@ -351,7 +386,7 @@ def run(tier, seed):
             if a != m:
                 diffs.append({"what": "ChecksumDatabase / DirectoryCache API differs from Caches.v", "case": c[:600], "impl": a, "model": m})
         stats["api_cases"] = len(lines)
-        nh = 21 if tier == "quick" else 154
+        nh = 24 if tier == "quick" else 176
         cases, obs = [], []
         for i in range(nh):
             v, h, d, cs, ob = run_history(sc, seed, i, known, stats)
